@@ -218,6 +218,9 @@ func (st *c02State) rebind(T *verifsim.Tape) {
 		}
 		sortKV(ents)
 		w.applyDomain(w.c.Maps["domain_routing_map"], ents)
+		if len(st.binds) > 0 {
+			st.s.Probe("kern.domain-bitmap")
+		}
 		return
 	}
 	w.MirrorDomain()
